@@ -599,6 +599,12 @@ def _observe_conc(case):
         st = _step(flight, ("r", st[1]))
         steps += 1
     flight_out = _outcome(st) if st[0] != "susp" else "stuck"
+    close2 = None
+    if case.get("retry") and not closed_ok:
+        # the close was refused while the fetch was running: asked again once the fetch is over, it is carried out
+        closer2 = target.aclose() if case["mode"] == "close" else A.iter(target).aclose()
+        close2 = _res(drive(closer2))
+        closed_ok = close2 == ["value", ["n"]]
     n1 = _npulls(log)
     post = [_res(drive(target.__anext__())) for _ in range(2)]
     n2 = _npulls(log)
@@ -611,7 +617,7 @@ def _observe_conc(case):
         drain.append(r)
         if r == "stop" or (isinstance(r, list) and r[0] in ("lib",)):
             break
-    return {"conc": {"suspended": suspended, "close": close_out, "closed_ok": closed_ok, "flight": flight_out, "pre": got,
+    return {"conc": {"suspended": suspended, "close": close_out, "close_again": close2, "closed_ok": closed_ok, "flight": flight_out, "pre": got,
                      "post": post, "post_inner": post_inner, "advanced_after_close": n2 - n1, "advanced_inner": n3 - n2,
                      "u_closed": closed_by_handle, "drain": drain},
             "ops": [], "drain": [], "mops": []}
@@ -649,6 +655,8 @@ def _conc_cases():
                         for pre in (0, 1):
                             yield {"family": "conc", "u": mk_u(kind, n), "ops": [], "depth": depth, "level": level,
                                    "mode": mode, "pre": pre}
+                            yield {"family": "conc", "u": mk_u(kind, n), "ops": [], "depth": depth, "level": level,
+                                   "mode": mode, "pre": pre, "retry": True}
 
 
 # ---------------------------------------------------------------------------------------------
